@@ -40,10 +40,12 @@ def run(ctx, chk):
 
 
 def _options(fn):
-    for n in iter_own_nodes(fn.node):
-        if isinstance(n, ast.Assign) and isinstance(n.targets[0], ast.Name) and n.targets[0].id == "options" and isinstance(n.value, ast.Dict):
-            return {k.value: v for k, v in zip(n.value.keys, n.value.values) if isinstance(k, ast.Constant)}
-    raise AnalysisError("C08.R1", "%s: options dict literal not found" % fn.qual)
+    from .util import dict_with_keys, name_bound_to
+    d = dict_with_keys(fn, ["first", "last", "current"])
+    if d is None:
+        raise AnalysisError("C08.R1", "%s: options dict literal (first/last/current) not found" % fn.qual)
+    fn._sa_options_name = name_bound_to(fn, d) or "options"
+    return {k.value: v for k, v in zip(d.keys, d.values) if isinstance(k, ast.Constant)}
 
 
 def r1(ctx, chk):
@@ -78,13 +80,13 @@ def r1(ctx, chk):
             for s in t.body:
                 if isinstance(s, ast.Return) and isinstance(s.value, ast.Call) and ast.unparse(s.value.func) == p0 + ".replace":
                     kw = {k.arg: ast.unparse(k.value) for k in s.value.keywords}
-                    ok_main = kw == {part: "options[settings.%s]" % setting}
+                    ok_main = kw == {part: "%s[settings.%s]" % (f._sa_options_name, setting)}
             for h in t.handlers:
                 if h.type is not None and "ValueError" in ast.unparse(h.type):
                     for s in h.body:
                         if isinstance(s, ast.Return) and isinstance(s.value, ast.Call) and ast.unparse(s.value.func) == p0 + ".replace":
                             kw = {k.arg: ast.unparse(k.value) for k in s.value.keywords}
-                            ok_fb = kw == {part: "options['last']"}
+                            ok_fb = kw == {part: "%s['last']" % f._sa_options_name}
         chk.ob(rule, "%s: replaces %s by options[settings.%s]" % (f.qual, part, setting), ok_main, "",
                key={"function": key, "construct": "replace by option"}, file=f.file, function=f.qual, line=f.node.lineno)
         chk.ob(rule, "%s: a value that does not fit falls back to `last` (clamp)" % f.qual, ok_fb,
@@ -111,7 +113,9 @@ def r1(ctx, chk):
     # custom formats use the same two helpers
     pf = ix.func("dateparser.date:parse_with_formats")
     t = ast.unparse(pf.node)
-    ok = "set_correct_month_from_settings(date_obj, settings)" in t and "set_correct_day_from_settings(date_obj, settings)" in t
+    import re as _re
+    ok = _re.search(r"(\w+) = set_correct_month_from_settings\(\1, settings\)", t) is not None and \
+        _re.search(r"(\w+) = set_correct_day_from_settings\(\1, settings\)", t) is not None
     chk.ob(rule, "parse_with_formats completes missing parts with the same helpers", ok, "",
            key={"function": pf.key, "construct": "helpers"}, file=pf.file, function=pf.qual, line=pf.node.lineno)
     # month is fixed before the day (so the day is clamped to the final month)
@@ -168,14 +172,16 @@ def format_part_table(ctx, rule):
     """{'day'|'month'|'year': set(directives)} as parse_with_formats decides it"""
     pf = ctx.ix.func("dateparser.date:parse_with_formats")
     txt = ast.unparse(pf.node)
-    if "_get_missing_parts(date_format)" in txt:
+    import re as _re
+    if _re.search(r"_get_missing_parts\((\w+)\)", txt):
         g = ctx.ix.func("dateparser.utils:_get_missing_parts")
-        for n in iter_own_nodes(g.node):
-            if isinstance(n, ast.Assign) and isinstance(n.value, ast.Dict) and ast.unparse(n.targets[0]) == "directive_mapping":
-                try:
-                    return {k: set(v) for k, v in ast.literal_eval(n.value).items()}, g
-                except Exception:
-                    pass
+        from .util import dict_with_keys
+        dm = dict_with_keys(g, ["day", "month", "year"])
+        if dm is not None:
+            try:
+                return {k: set(v) for k, v in ast.literal_eval(dm).items()}, g
+            except Exception:
+                pass
         raise AnalysisError(rule, "_get_missing_parts.directive_mapping is not a literal")
     # older shape: own expressions
     table = {"day": set(), "month": set(), "year": set()}
@@ -192,6 +198,19 @@ def format_part_table(ctx, rule):
     if not table["day"] or not table["month"]:
         raise AnalysisError(rule, "parse_with_formats: missing-part computation not recognised")
     return table, pf
+
+
+def missing_flags(pf):
+    """{local name: 'month'|'day'} for flags bound to `"month" in <missing parts>` (or the older directive tests)"""
+    out = {}
+    for n in iter_own_nodes(pf.node):
+        if isinstance(n, ast.Assign) and isinstance(n.targets[0], ast.Name):
+            v = n.value
+            if isinstance(v, ast.Compare) and isinstance(v.ops[0], ast.In) and isinstance(v.left, ast.Constant) and v.left.value in ("month", "day"):
+                out[n.targets[0].id] = v.left.value
+            elif n.targets[0].id in ("missing_month", "missing_day"):
+                out[n.targets[0].id] = n.targets[0].id.split("_")[1]
+    return out
 
 
 def r3(ctx, chk):
@@ -213,16 +232,26 @@ def r3(ctx, chk):
     # the no-spaces parser and the absolute parser use the same table through _get_missing_parts
     ns = ctx.ix.func("dateparser.parser:_no_spaces_parser.parse")
     chk.ob(rule, "_no_spaces_parser derives the missing parts with _get_missing_parts(fmt)",
-           "_get_missing_parts(fmt)" in ast.unparse(ns.node), "", key={"table": "format parts", "directive": "*", "part": "nsp"},
+           any(isinstance(n, ast.Call) and ast.unparse(n.func) == "_get_missing_parts" for n in iter_own_nodes(ns.node)), "", key={"table": "format parts", "directive": "*", "part": "nsp"},
            file=ns.file, function=ns.qual, line=ns.node.lineno)
     # period of the custom-format result: year if month missing, month if only day missing, else day
     pf = ctx.ix.func("dateparser.date:parse_with_formats")
     per = {}
+    flags = missing_flags(pf)
+    pname = None
+    for n in iter_own_nodes(pf.node):
+        if isinstance(n, ast.Call) and ast.unparse(n.func) == "DateData":
+            for k in n.keywords:
+                if k.arg == "period" and isinstance(k.value, ast.Name):
+                    pname = k.value.id
     for s in iter_own_stmts(pf.node.body):
         if isinstance(s, ast.If):
             t = ast.unparse(s.test)
+            for nm, part in flags.items():
+                import re as _re
+                t = _re.sub(r"\b%s\b" % nm, "missing_" + part, t)
             for b in s.body:
-                if isinstance(b, ast.Assign) and ast.unparse(b.targets[0]) == "period" and isinstance(b.value, ast.Constant):
+                if isinstance(b, ast.Assign) and ast.unparse(b.targets[0]) == pname and isinstance(b.value, ast.Constant):
                     per[t] = b.value.value
     want = {"missing_month and missing_day": "year", "missing_month": "year", "missing_day": "month"}
     chk.ob(rule, "custom formats: period year/year/month for (month+day | month | day) missing", per == want, "got %s" % per,
@@ -241,8 +270,10 @@ def r4(ctx, chk):
             continue
         rets = [r for r in ast.walk(lp) if isinstance(r, ast.Return)]
         val = ast.unparse(rets[0].value) if rets else None
+        if val == ast.unparse(lp.target):
+            val = "<loop variable>"
         seq.append((names, val))
-    want = [(["time", "day"], "'day'"), (["month", "year"], "period")]
+    want = [(["time", "day"], "'day'"), (["month", "year"], "<loop variable>")]
     chk.ob(rule, "_get_period: day if a time or day is present, else month, else year", seq == want, "got %s" % seq,
            key={"function": f.key, "construct": "period order"}, file=f.file, function=f.qual, line=f.node.lineno)
     first = f.node.body[0]
